@@ -210,7 +210,8 @@ pub trait SuiteOps: Sync {
 
     /// the stand-alone key-pair API: which = 0 PublicKey::deserialize, 1
     /// PrivateKey::deserialize (+ public_key), 2 KeyPair::from_private_key_slice,
-    /// 3 the same with the external-key type; returns the re-serialized bytes
+    /// 3 the same with the external-key type, 4 ServerSetup::deserialize with a 200-byte
+    /// key container, 5 build such a setup from a raw scalar; returns the re-serialized bytes
     fn key_api(&self, which: u8, bytes: &[u8]) -> R<Vec<u8>>;
 
     fn client_reg_start(&self, rng: &mut SimRng, pw: &[u8]) -> R<(Item, Item)>;
@@ -675,11 +676,25 @@ macro_rules! suite {
                         v.extend_from_slice(&kp.public().serialize());
                         Ok(v)
                     }
-                    _ => {
+                    3 => {
                         let kp = KeyPair::<$ke, SimHsm<$ke>>::from_private_key_slice(bytes).map_err(op_err)?;
                         let mut v = kp.private().serialize().to_vec();
                         v.extend_from_slice(&kp.public().serialize());
                         Ok(v)
+                    }
+                    // a server setup whose key container serializes to 200 bytes
+                    4 => {
+                        let s = ServerSetup::<$name, $crate::seams::SimHsmWide<$ke>>::deserialize(bytes).map_err(op_err)?;
+                        Ok(s.serialize().to_vec())
+                    }
+                    // bytes = raw scalar: build such a setup and return its stored form
+                    _ => {
+                        let sk = <opaque_ke::keypair::PrivateKey<$ke> as SecretKey<$ke>>::deserialize(bytes)
+                            .map_err(|e| op_err(ProtocolError::from(e)))?;
+                        let kp = KeyPair::<$ke, $crate::seams::SimHsmWide<$ke>>::from_private_key($crate::seams::SimHsmWide::wrap(sk)).map_err(op_err)?;
+                        let mut rng = SimRng::new(0, "keyapi/wide-setup");
+                        let s = ServerSetup::<$name, $crate::seams::SimHsmWide<$ke>>::new_with_key(&mut rng, kp);
+                        Ok(s.serialize().to_vec())
                     }
                 })
             }
